@@ -87,7 +87,7 @@ CHECKS["C09"] = dict(
           "non-zero element (any representation) an r with r·a = 1 and refuses exactly the zero class; batchInverse (prefix products, "
           "one inversion, backward sweep; hand model) returns element-wise inverses for every array length >= 1, refuses exactly when "
           "an element is zero or the array is empty, and agrees with inv. Tie of the hand-modelled parts: correspondence (inv on "
-          "non-zero elements, batchInverse lengths 1..66, every output checked against the spec). ALSO: Goldilocks3::inv/div/batchInverse are translated on every run and C09_generated_* prove the property statements directly about the generated functions (batchInverse for every 1 <= size < 2^59)."),
+          "non-zero elements, batchInverse lengths 1..66, every output checked against the spec). ALSO: Goldilocks3::inv/div/batchInverse are translated on every run and C09_generated_* prove the property statements directly about the generated functions (batchInverse for every 1 <= size < 2^59; mulScalar(string) through the translated fromString, default radix 10)."),
     technique="Lean 4 proof (ZMod p, ring) over a translated model incl. aliasing variants + correspondence for the hand-modelled parts",
     design="§4 C09", note=NOTE_BASE)
 
@@ -182,7 +182,7 @@ CHECKS["C18"] = dict(
     design="§4 C18", note=NOTE_BASE + " Uninitialised reads, alignment, integer/shift UB inside the C++ and stack VLAs are outside every model (observed by UBSan/ASan only; no MSan).")
 
 CHECKS["C12"] = dict(
-    text=("PARTIAL BY NATURE. Machine-checked (Props/C12.lean, 30 theorems; Lemmas/Bernstein.lean, NttPar*.lean, MerklePar.lean): "
+    text=("PARTIAL BY NATURE. Machine-checked (Props/C12.lean, 56 theorems; Lemmas/Bernstein.lean, NttPar*.lean, MerklePar.lean): "
           "(1) generic theorem — iterations whose read/write footprints satisfy Bernstein's conditions pairwise can be executed in ANY "
           "order (any assignment to team members, any team size below/at/above the iteration count, any order of members) with the same "
           "final memory; (2) Bernstein's conditions, for ALL shapes, for the footprints of all 20 `omp parallel for` loops (NTT butterfly "
@@ -192,8 +192,11 @@ CHECKS["C12"] = dict(
           "scatterBlock / all four reversePermutation branches provably touches only its footprint and depends only on it, hence "
           "folding the iterations over ANY permutation equals the model's sequential loop, lifted to whole ntt / intt / extendPol "
           "calls with arbitrary per-pass, per-block orders (C12_model_*_any_order); Merkle: node dependency of the functional model and "
-          "order independence of an imperative rendering of the tree loops; (4) parcpy/parSetZero end to end for every chunk order "
-          "(C17). NOT proved: that the COMPILED loop bodies access exactly these footprints. That is checked/observed on every run: "
+          "order independence of an imperative rendering of the tree loops; (4) parcpy/parSetZero end to end for every chunk order (C17); "
+          "(5) for the GENERATED lifted loop bodies (translated from the source on every run: NTT butterfly batches, scatter, the four "
+          "reversal loops, parcpy chunks, Merkle leaf and level loops of all builders) folding the body over ANY permutation of the "
+          "iteration indices equals the generated sequential loop and returns (C12_generated_*_any_order): the footprints are no longer "
+          "only hand-written. NOT proved: that the COMPILED loop bodies access exactly these footprints. That is checked/observed on every run: "
           "fingerprint of every parallel loop statement of the current source against the text the footprints were written from, no "
           "OpenMP construct outside `parallel for`+static schedule; ThreadSanitizer over a pthread stand-in for the OpenMP runtime; "
           "controlled sequential execution of team members in permuted orders, team sizes 1,2,3,5,8,64 and a runtime granting fewer "
